@@ -111,7 +111,7 @@ def finish(meta, out_dir, rc):
     mp = os.path.join(out_dir, "meta.json")
     if os.path.exists(mp):
         old = json.load(open(mp))
-    for k in ("needs_to_manifest", "idea", "source"):
+    for k in ("needs_to_manifest", "idea", "source", "history"):
         if k in old and k not in meta:
             meta[k] = old[k]
     with open(mp, "w") as f:
